@@ -110,6 +110,9 @@ def judge_irrelevant(rec, T, out, witness):
             out.skip('unbounded-type-variable')      # everything is unrelated to nothing known
             return
         tt = t[3]
+        if terms.is_top(tt, T):
+            out.skip('type-variable-bounded-by-top')     # as good as unbounded
+            return
     if r[0] in terms.UNJUDGED_KINDS or tt[0] in terms.UNJUDGED_KINDS:
         out.skip('unjudgeable-kind')
         return
